@@ -326,6 +326,86 @@ async fn history(mon: &Monitor, rng: &mut Rng, long: bool, depth_left: usize, st
     }
 }
 
+/// Targeted at the rotation threshold (1000 records per log file): the log is filled to just below
+/// it with single-record operations, then batches / deletes / upserts straddle the boundary, then
+/// the directory is recovered after a clean close and at every crash point around the rotation.
+async fn rotation_boundary(mon: &Monitor, rng: &mut Rng) {
+    let dir = scratch("c06b");
+    let rec = register(&dir, false, 0);
+    let Ok(m) = Mgr::new(config(&dir, FlushStrategy::Always)).await else {
+        unregister(&dir);
+        return;
+    };
+    let nkeys = rng.urange(3, 12);
+    let prefill = 1000 - rng.urange(0, 8);
+    let mut ops: Vec<Op> = Vec::new();
+    let mut model = BTreeMap::new();
+    let mut opid = rng.next_u64() >> 20;
+    for _ in 0..prefill {
+        opid += 1;
+        let k = format!("k{}", rng.usize_below(nkeys));
+        let op = Op::Upsert(k.clone(), (opid, k));
+        rec.in_op.store(ops.len(), Ordering::Relaxed);
+        let _ = run_op(&m, &op).await;
+        apply(&mut model, &op);
+        ops.push(op);
+        rec.in_op.store(ops.len(), Ordering::Relaxed);
+    }
+    rec.shots.lock().clear();
+    // now every hook is recorded: the operations that straddle the threshold
+    let rec2 = register(&dir, true, 1_000_000);
+    rec2.in_op.store(ops.len(), Ordering::Relaxed);
+    let mut pending: Vec<Shot> = Vec::new();
+    for _ in 0..rng.urange(2, 6) {
+        opid += 1;
+        let op = gen_op(rng, opid, nkeys, &model, false);
+        let op = if rng.chance(0.6) {
+            // force a batch of several records
+            let mut ch: Vec<(String, Option<Val>)> = Vec::new();
+            for j in 0..rng.urange(3, 6) {
+                let k = format!("b{j}");
+                ch.push((k.clone(), Some((opid * 100 + j as u64, k))));
+            }
+            Op::Batch(ch)
+        } else {
+            op
+        };
+        ops.push(op.clone());
+        rec2.in_op.store(ops.len() - 1, Ordering::Relaxed);
+        let _ = run_op(&m, &op).await;
+        mon.count(&format!("ops.{}", op.kind()), 1);
+        apply(&mut model, &op);
+        rec2.in_op.store(ops.len(), Ordering::Relaxed);
+        rec2.shots.lock().push(Shot { hook: "after_ack".into(), in_op: ops.len(), image: capture(&dir) });
+        pending.extend(rec2.shots.lock().drain(..));
+    }
+    drop(m);
+    unregister(&dir);
+    let pre = prefixes(&ops);
+    let final_img = capture(&dir);
+    let rotated = final_img.iter().filter(|(n, _)| is_wal(n) && n != "state.wal").count();
+    mon.count("boundary.histories", 1);
+    mon.count("boundary.rotated_files", rotated as u64);
+    if let Ok((got, d, m2)) = recover(&final_img, "c06br").await {
+        judge(mon, "clean-restart", if rotated > 0 { "close-after-rotation" } else { "close" }, &ops, &pre, 0, ops.len(), ops.len(), &got, json!({"prefill": prefill, "files": final_img.iter().map(|(n, b)| format!("{n}:{}", b.len())).collect::<Vec<_>>()}));
+        drop(m2);
+        let _ = std::fs::remove_dir_all(&d);
+    }
+    for shot in pending {
+        if mon.time_up() {
+            break;
+        }
+        if let Ok((got, d, m2)) = recover(&shot.image, "c06bs").await {
+            mon.count(&format!("crash_points.{}", shot.hook), 1);
+            let hook = format!("{}@rotation-boundary", shot.hook);
+            judge(mon, "crash", &hook, &ops, &pre, 0, shot.in_op, shot.in_op, &got, json!({"prefill": prefill}));
+            drop(m2);
+            let _ = std::fs::remove_dir_all(&d);
+        }
+    }
+    let _ = std::fs::remove_dir_all(&dir);
+}
+
 fn main() {
     let mon = Monitor::new("C06", "fault_enumeration");
     mon.set_rule("case = one (operation history, crash point[, truncation of the last log record]) recovery by a fresh manager; non-trivial when >=1 operation was acknowledged before the point; distinct by (judgement kind, hook name / truncation class, op kinds in the history)");
@@ -339,6 +419,13 @@ fn main() {
         rt.block_on(async {
             // long histories force rotation (1000 entries per log file); half of the shards
             // start with them so that they are not starved by the short ones
+            // targeted: operations straddling the 1000-record rotation threshold
+            for _ in 0..mon.by_tier(4, 60) {
+                if mon.spent(0.3) {
+                    break;
+                }
+                rotation_boundary(&mon, &mut rng).await;
+            }
             let longs = if mon.quick() { if i < 2 { 1 } else { 0 } } else { long_per_shard };
             let longs_first = i % 2 == 0;
             if longs_first {
@@ -366,5 +453,7 @@ fn main() {
         });
     });
     scratch_cleanup();
+    // supplementary sanitizer lane (thorough): open/upsert/batch/checkpoint/reopen under Miri
+    checks::lanes::run(&mon, "miri", "pstate", "0..2");
     mon.finish();
 }
